@@ -23,9 +23,11 @@ THEOREMS = [NS + n for n in [
     "has_facebook_comments_spec",
     "reparse_url_partial",
     "reparse_of_parse_partial",
+    "parsed_fields_nonempty",
     "witness_facts",
     "fullReparse_false",
     "excluded_shapes_fail",
+    "fixed_findings_behave",
 ]]
 TABLE_OBLIGATIONS = [NS + n for n in [
     "patterns_unchanged",
@@ -44,11 +46,12 @@ def owns_op(op):
 
 RULE = (
     "Cases are typed. url: (url, allow_relative_urls) -> parse_facebook_url (record fields + .url + .full_id), has_facebook_comments, "
-    "parse(record.url) again, the hypotheses of the round-trip theorems on the record (reparsable / fieldsOk / findingShape, Lean vs a "
+    "parse(record.url) again, the hypotheses of the round-trip theorems on the record (reparsable / charsOk, Lean vs a "
     "Python port), and the seven other functions of the module on the same string (is_facebook_id, is_facebook_full_id, is_facebook_url, "
     "is_facebook_post_url, is_facebook_link, extract_url_from_facebook_link, convert_facebook_url_to_mobile). Stream: the corpus (every input "
     "of the fixed C19 findings that concern facebook.py: the 15 truncated paths of f72868e, photo urls of 24fcd80, /posts/ urls of 696e630, "
-    "unsplittable urls of d948b00, look-alike hosts) x both options; every path of 0-3 (quick) / 0-4 (thorough) segments over the 13 route "
+    "unsplittable urls of d948b00, look-alike hosts, the empty segments of fec1df7, the empty set ids of 3eab049, the album segments of "
+    "ad3e67d, the upper-case hosts of 7e5e990) x both options; every path of 0-3 (quick) / 0-4 (thorough) segments over the 13 route "
     "words (watch videos photo.php photo photos posts permalink.php story.php groups permalink profile.php people l.php) + id-like "
     "(1234567890), too-short (12), handle-like (nasa), album-like (a.123), empty, x.php, a..b, too-long (40 digits) segments, with and "
     "without trailing slash, a query cycled over 12 query sets (v, fbid+set, id+story_fbid, &amp;, empty values, set=g.), short paths also "
@@ -57,9 +60,11 @@ RULE = (
     "fr-fr, web, fb.me, facebook.co, FACEBOOK.com, with port, with userinfo, trailing dot, example.org, notfacebook.com, facebook.evil.org) x "
     "7 scheme forms x 13 representative paths x fragments ('#', '#!/nasa/posts/1', ...) x both options; relative references; then seeded "
     "random urls (0-5 segments over the wider vocabulary incl. watchme, peoplex, 'a.', 'aa..', '.', '..', 'a;', 'a b', %-escapes, non-ASCII; "
-    "0-3 query items; '&amp;'). str: arbitrary strings (fixed list with '123\\n', non-ASCII digits, '&AMP%3B', IPv6 / userinfo / port oddities; "
+    "0-3 query items; '&amp;'); every path of 1-3 segments over 13 tokens with blanks around id-like / handle-like segments ('nasa ', "
+    "' nasa', ' ', '5 '). str: arbitrary strings (fixed list with '123\\n', non-ASCII digits, '&AMP%3B', IPv6 / userinfo / port oddities; "
     "all strings of length <= 3 (quick) / 4 over {u = & ? a . 1 LF}; seeded random over a 32-character alphabet) -> the seven functions, "
-    "parse with both options, the three hand-modelled regex uses next to the generic interpreter (three-way with the real re), and the "
+    "parse with both options, the four hand-modelled regex uses (MISTAKES_RE.sub, SLASH_SQUEEZE_RE.sub, ...) next to the generic interpreter "
+    "(three-way with the real re), and the "
     "CPython prelude the model rests on (parse_qsl, SplitResult.hostname, str.split(sep,1), str.replace, in). rec: every branch of every "
     ".url / .full_id builder on field grids (incl. None, '', 'a b', 'x/y', 'a?b', 'None'). Non-trivial = url: the string reaches the router "
     "(is_facebook_url, or a relative reference with allow_relative_urls); str: non-empty. Distinct = distinct (url, option)."
@@ -76,7 +81,7 @@ TRUSTED = [
     "hand-written Lean model Model/Facebook.lean of ural/facebook.py (all nine public functions, the six record classes and their builders; "
     "exceptions are values, every positional access is an error-valued access), Model/FacebookScope.lean (the hypotheses of the round-trip "
     "theorems): tied to the code by differential execution on every run (this stream) and by the regenerated data of the module "
-    "(Gen/C19FacebookTables.lean: the 6 regexes as terms, BASE_FACEBOOK_URL, the url templates observed on sentinel records, "
+    "(Gen/C19FacebookTables.lean: the 7 regexes as terms, BASE_FACEBOOK_URL, the url templates observed on sentinel records, "
     "FACEBOOK_TYPES_HAVING_COMMENTS) through the table obligations",
     "hand-written models of CPython 3.12.1: urlsplit / urlunsplit / urljoin (Py/UrlSplit.lean; _checknetloc's NFKC step not modelled, "
     "_check_bracketed_host approximated), SplitResult.hostname (Py/Split.lean), unquote + UTF-8 decoding with errors='replace' "
@@ -84,10 +89,11 @@ TRUSTED = [
     "stream (fb_py) and on those of C15/C20",
     "the regex engine: FACEBOOK_ID_RE, FACEBOOK_FULL_ID_RE, FACEBOOK_DOMAIN_RE (search), MOBILE_REPLACE_RE (sub), URL_EXTRACT_RE (search) are "
     "the regenerated terms run by the generic backtracking matcher of Py/Re.lean (character classes computed by the running engine over all "
-    "code points); MISTAKES_RE.sub is the hand-written fixMistakes, URL_EXTRACT_RE's group 2 is derived from the match span: both tied to "
-    "their pattern string by a table obligation and compared three-way (real re / generic interpreter / hand model) on every str case",
+    "code points); MISTAKES_RE.sub is the hand-written fixMistakes, SLASH_SQUEEZE_RE.sub the hand-written UrlParts.squeezeSlashes, "
+    "URL_EXTRACT_RE's group 2 is derived from the match span: all three tied to their pattern string by a table obligation and compared "
+    "three-way (real re / generic interpreter / hand model) on every str case",
     "ural.utils.pathsplit, safe_urlsplit, ensure_protocol are the shared models of Model/Builders.lean and Model/Protocol.lean (C20)",
-    "the Python port of the theorem hypotheses (reparsable, fieldsOk, findingShape) used for the distribution labels is compared with the "
+    "the Python port of the theorem hypotheses (reparsable, charsOk) used for the distribution labels is compared with the "
     "Lean predicates on every parsed record (op fb_hyp)",
 ]
 ASSUMPTIONS = [
@@ -96,22 +102,30 @@ ASSUMPTIONS = [
     "reading of 'raise only their documented error for foreign URLs' (convert_facebook_url_to_mobile): the only exception is the TypeError "
     "whose message is the documented one, and it is not raised when urllib's hostname of the url is facebook.<tld> or a subdomain of it "
     "(fb.me, which has no mobile site, and look-alike hosts are not judged)",
-    "reading of the round trip: demanded of every returned record whose fields are plain id-like / handle-like tokens ([A-Za-z0-9_.-]+, "
-    "not '.' / '..'), the quantifier's 'id-like / handle-like / too-short / too-long segments'; for every other record only totality is "
+    "reading of the round trip: demanded of every returned record whose fields are plain id-like / handle-like tokens ([A-Za-z0-9_.-]+ "
+    "and blanks — an id typed with a stray blank, as the youtube part reads it —, not '.' / '..'), the quantifier's 'id-like / handle-like / "
+    "too-short / too-long segments'; for every other record only totality is "
     "demanded (record.url and parse(record.url) do not raise). A record with an empty string in a field is not well-formed (as for the other "
     "platforms: 'record with id \'\'' findings)",
     "the property text names no facebook validator: the oracle does not demand is_facebook_id of any field (proved for the model: record_valid)",
 ]
 UNPROVED = (
-    "Round trip: proved for every returned record with fieldsOk (path-borne fields without '/ ? # ;', white space, not empty, not a dot "
-    "segment; query-borne fields without '& # + %' TAB CR LF, not empty) outside the two finding shapes (reparse_of_parse_partial; and "
-    "reparse_url_partial for every record, returned or not, satisfying reparsable). The full statement (FullReparse) is false on the code as it "
-    "is: fullReparse_false / excluded_shapes_fail exhibit the failing shapes in Lean, the check replays them on the implementation "
-    "(KF-C19-FB-1..3). Outside fieldsOk the round trip is false by design for url metacharacters that parse_qs decodes or urljoin resolves "
-    "('..', 'a;', 'v=a%26b': witnesses in excluded_shapes_fail); that region is explored by the oracle for totality only (label "
-    "reparse=not-demanded). convert_facebook_url_to_mobile: that the only exception is the documented TypeError and exactly when it is "
-    "raised is proved; that it is raised on no facebook host is false (KF-C19-FB-4). is_facebook_id & co are total by their type (Bool); "
-    "nothing is proved about which strings they accept beyond the regenerated pattern terms. The CPython prelude is modelled, not verified."
+    "Round trip: proved for every returned record under the character-level hypothesis charsOk alone (reparse_of_parse_partial: path-borne "
+    "fields without '/ ? # ;' and white space and not a dot segment; query-borne fields without '& # + %' TAB CR LF); that no field is empty "
+    "(parsed_fields_nonempty) and that no earlier route takes the canonical url are derived, the former exclusions for empty segments, empty "
+    "set ids, 'a.' inside album ids and handles starting with 'people' are gone (fixes fec1df7, 3eab049, ad3e67d of /repo; "
+    "fixed_findings_behave). reparse_url_partial is the same for every record, returned or not, satisfying the decidable reparsable. The full "
+    "statement over every string (FullReparse) stays false by design for url metacharacters that urljoin resolves or parse_qs decodes ('..', "
+    "'a;', 'v=a%26b', 'v=a%2Bb': fullReparse_false, excluded_shapes_fail) — outside the property's quantifier (id-like / handle-like "
+    "segments); that region is explored by the oracle for totality only (label reparse=not-demanded). White space in a path-borne field: "
+    "a field that ends the canonical url and ends with white space really fails (known finding KF-C19-FB-5, witness in "
+    "excluded_shapes_fail, patch notes/fixes/facebook-5-segment-blanks.diff); blanks elsewhere (in front, inside, at the end of a field that "
+    "does not end the url) survive the round trip on every explored input and are excluded for the proof only — the oracle demands the "
+    "round trip of them (label reparse=demanded-explored). '? #' in a path-borne field cannot occur in a path urlsplit "
+    "returns (excluded for the proof only). convert_facebook_url_to_mobile: that the only exception is the "
+    "documented TypeError and exactly when it is raised (urlsplit refuses, or no 'facebook' in the lower-cased netloc) is proved. "
+    "is_facebook_id & co are total by their type (Bool); nothing is proved about which strings they accept beyond the regenerated pattern "
+    "terms. The CPython prelude is modelled, not verified."
 )
 
 # --------------------------------------------------------------------------------------
@@ -212,7 +226,7 @@ def run_op(op):
     if f == "fb_hyp":
         def hyp():
             r = fb.parse_facebook_url(op["url"], allow_relative_urls=op["rel"])
-            return None if r is None else [reparsable(fb, r), fields_ok(r), finding_shape(r)]
+            return None if r is None else [reparsable(fb, r), chars_ok(r)]
         return lib.guarded(hyp)
     if f == "fb_re":
         from ural import utils
@@ -222,6 +236,8 @@ def run_op(op):
         return {
             "mistakes_hand": fixed,
             "mistakes_generic": fixed,
+            "squeeze_hand": utils.SLASH_SQUEEZE_RE.sub("/", s),
+            "squeeze_generic": _re.sub(utils.SLASH_SQUEEZE_RE, "/", s),
             "mobile": _re.sub(fb.MOBILE_REPLACE_RE, "m.facebook.", s),
             "domain": bool(_re.search(fb.FACEBOOK_DOMAIN_RE, s)),
             "extract": _span(fb.URL_EXTRACT_RE.search(s)),
@@ -323,59 +339,59 @@ def reparsable(fb, r):
             return False
         p = r.parent_id if r.parent_id is not None else r.parent_handle
         a = r.album_id
-        return (seg_ok(p) and seg_ok(r.id) and all(c not in "/?#;" and not c.isspace() for c in a) and no_watch(p)
-                and no_watch(r.id) and p != "videos" and "a." not in a and isid(p) == (r.parent_id is not None))
+        return (seg_ok(p) and seg_ok(r.id) and a != "" and all(c not in "/?#;" and not c.isspace() for c in a) and no_watch(p)
+                and no_watch(r.id) and p != "videos" and isid(p) == (r.parent_id is not None))
     return False
 
 
-def seg_chars(s):
+def seg_all(s):
     return all(c not in "/?#;" and not c.isspace() for c in s)
 
 
-def fields_ok(r):
-    """`Ural.Facebook.fieldsOk`: the character-level hypothesis of `reparse_of_parse_partial`"""
+def seg_chars(s):
+    """`Ural.Facebook.segChars`"""
+    return seg_all(s) and s not in (".", "..")
+
+
+def qval_chars(s):
+    """`Ural.Facebook.qvalChars`"""
+    return all(c not in "&#+%\t\r\n" for c in s)
+
+
+def chars_ok(r):
+    """`Ural.Facebook.charsOk`: the character-level hypothesis of `reparse_of_parse_partial`"""
     t = type(r).__name__
     if t == "FacebookUser":
-        return r.handle is None and qval_ok(r.id)
+        return r.handle is None and qval_chars(r.id)
     if t == "FacebookHandle":
-        return seg_ok(r.handle)
+        return seg_chars(r.handle)
     if t == "FacebookGroup":
         if (r.id is None) == (r.handle is None):
             return False
-        return seg_ok(r.id if r.id is not None else r.handle)
+        return seg_chars(r.id if r.id is not None else r.handle)
     if t == "FacebookPost":
         parents = (r.parent_id, r.parent_handle, r.group_id, r.group_handle)
         if sum(x is not None for x in parents) != 1:
             return False
         if r.parent_id is not None:
-            return qval_ok(r.parent_id) and qval_ok(r.id)
-        return seg_ok([x for x in parents if x is not None][0]) and seg_ok(r.id)
+            return qval_chars(r.parent_id) and qval_chars(r.id)
+        return seg_chars([x for x in parents if x is not None][0]) and seg_chars(r.id)
     if t == "FacebookVideo":
-        return qval_ok(r.id) if r.parent_id is None else (seg_ok(r.parent_id) and seg_ok(r.id))
+        return qval_chars(r.id) if r.parent_id is None else (seg_chars(r.parent_id) and seg_chars(r.id))
     if t == "FacebookPhoto":
         if r.parent_id is None and r.parent_handle is None:
-            return qval_ok(r.id) and all(x is None or qval_ok(x) for x in (r.group_id, r.album_id))
+            return qval_chars(r.id) and all(x is None or qval_chars(x) for x in (r.group_id, r.album_id))
         if (r.parent_id is not None and r.parent_handle is not None) or r.group_id is not None or r.album_id is None:
             return False
         p = r.parent_id if r.parent_id is not None else r.parent_handle
-        return seg_ok(p) and seg_ok(r.id) and seg_chars(r.album_id)
-    return False
-
-
-def finding_shape(r):
-    """`Ural.Facebook.findingShape`"""
-    t = type(r).__name__
-    if t == "FacebookHandle":
-        return r.handle.startswith("people")
-    if t == "FacebookPhoto":
-        return (r.parent_id is not None or r.parent_handle is not None) and r.album_id is not None and "a." in r.album_id
+        return seg_chars(p) and seg_chars(r.id) and seg_all(r.album_id)
     return False
 
 
 # --------------------------------------------------------------------------------------
 # oracle: the property, on the implementation only
 # --------------------------------------------------------------------------------------
-TOKEN_RE = _re.compile(r"^[A-Za-z0-9_.\-]+$")
+TOKEN_RE = _re.compile(r"^[A-Za-z0-9_.\- ]+$")
 DOC_ERROR_RE = _re.compile(r"^ural\.facebook\.convert_facebook_url_to_mobile: .* is not a facebook url$", _re.S)
 FB_HOST_RE = _re.compile(r"(?:^|\.)facebook\.[^.]+$")
 
@@ -386,8 +402,9 @@ def slots_of(r):
 
 def in_scope(r):
     """the records the round trip is demanded of: every field is a plain id-like / handle-like
-    token (letters, digits, `_ . -`), not a dot segment (the reading of the quantifier
-    "id-like / handle-like / too-short / too-long segments")"""
+    token (letters, digits, `_ . -`, and blanks: an id typed or pasted with a stray blank, as for
+    the youtube part), not a dot segment (the reading of the quantifier "id-like / handle-like /
+    too-short / too-long segments")"""
     for _, v in slots_of(r):
         if v is None:
             continue
@@ -512,7 +529,7 @@ def oracle(case):
 
 
 # --------------------------------------------------------------------------------------
-# known findings (KNOWN_FINDINGS.json, patches in notes/fixes/facebook-*.diff)
+# known findings (KNOWN_FINDINGS.json; KF-C19-FB-1..4 are fixed: FX-C19-fec1df7 / 3eab049 / ad3e67d / 7e5e990)
 # --------------------------------------------------------------------------------------
 def _records(case):
     """the (string, rel, record) triples the oracle looks at for this case"""
@@ -534,84 +551,30 @@ def _records(case):
     return out
 
 
-def _roundtrip_fails(fb, r):
-    try:
-        r2 = fb.parse_facebook_url(r.url)
-    except Exception:  # noqa
+def kf_fb_trailing_blank(case, failure):
+    """KF-C19-FB-5: a path segment that ends with white space becomes a field; at the end of the
+    canonical url the white space is stripped by pathsplit, so the url parses to another record
+    (or to None for an all-blank field).  Patch: notes/fixes/facebook-5-segment-blanks.diff"""
+    if "but its url" not in failure or "parses to" not in failure:
         return False
-    return not (r2 == r and type(r2) is type(r))
-
-
-def _raw_path(s, rel):
-    """the path the parser splits (independent of ural: urllib only)"""
-    u = s
-    if not _re.match(r"(?:[a-zA-Z]{1,64}:)?//", u):
-        u = "http://www.facebook.com/" + u.lstrip("/") if rel and "facebook." not in u else "http://" + u
-    try:
-        return _urlsplit(u).path
-    except ValueError:
-        return ""
-
-
-def kf_fb_empty_segment(case, failure):
-    """KF-C19-FB-1: an empty path segment (`//`) read as an id / a handle, or hiding the /people route"""
-    if "is the empty string" in failure:
-        for s, rel, r in _records(case):
-            name = type(r).__name__
-            empties = [k for k, v in slots_of(r) if v == ""]
-            from_query = name == "FacebookPhoto" and r.parent_id is None and r.parent_handle is None
-            if empties and not from_query and not (name == "FacebookPhoto" and empties == ["album_id"]):
-                return "//" in _raw_path(s, rel)
-        return False
-    if "but its url" in failure and "parses to" in failure:
-        fb = fbmod()
-        for s, rel, r in _records(case):
-            if type(r).__name__ == "FacebookHandle" and r.handle.startswith("people") and _roundtrip_fails(fb, r):
-                return True
-    return False
-
-
-def kf_fb_empty_set_id(case, failure):
-    """KF-C19-FB-2: photo.php?fbid=..&set=g. / set=a. gives group_id / album_id ''"""
-    if "is the empty string" not in failure:
-        return False
+    fb = fbmod()
     for s, rel, r in _records(case):
-        if type(r).__name__ == "FacebookPhoto" and r.parent_id is None and r.parent_handle is None and "" in (r.group_id, r.album_id):
+        try:
+            u = r.url
+            r2 = fb.parse_facebook_url(u)
+        except Exception:  # noqa
+            continue
+        if u is not None and u != u.rstrip() and not (r2 == r and type(r2) is type(r)):
             return True
     return False
-
-
-def kf_fb_album_prefix(case, failure):
-    """KF-C19-FB-3: /<page>/photos/<album>/<photo>: album read with replace('a.', '')"""
-    if "is the empty string" not in failure and "but its url" not in failure:
-        return False
-    for s, rel, r in _records(case):
-        if type(r).__name__ == "FacebookPhoto" and (r.parent_id is not None or r.parent_handle is not None):
-            if r.album_id == "" or (r.album_id is not None and "a." in r.album_id):
-                return True
-    return False
-
-
-def kf_fb_mobile_host_case(case, failure):
-    """KF-C19-FB-4: convert_facebook_url_to_mobile tests the netloc case-sensitively"""
-    if "raised its foreign-url error on the facebook host" not in failure:
-        return False
-    s = case["url"] if case["k"] == "url" else case.get("s", "")
-    u = s if _re.match(r"(?:[a-zA-Z]{1,64}:)?//", s) else "http://" + s
-    if u.startswith("//"):
-        u = "http:" + u
-    try:
-        netloc = _urlsplit(u).netloc
-    except ValueError:
-        return False
-    return "facebook" not in netloc and "facebook" in netloc.lower()
 
 
 # --------------------------------------------------------------------------------------
 # generators
 # --------------------------------------------------------------------------------------
 # every fixed finding of C19 that concerns ural/facebook.py (KNOWN_FINDINGS.json: FX-C19-f72868e,
-# FX-C19-24fcd80, FX-C19-696e630, FX-C19-3e875d1, FX-C19-d948b00) and DESIGN §7 D45
+# FX-C19-24fcd80, FX-C19-696e630, FX-C19-3e875d1, FX-C19-d948b00, FX-C19-fec1df7, FX-C19-3eab049,
+# FX-C19-ad3e67d, FX-C19-7e5e990) and DESIGN §7 D45
 CORPUS_URLS = [
     "facebook.com/groups/", "facebook.com/groups/x/permalink/", "facebook.com/groups/x/posts/", "facebook.com/x/posts/",
     "facebook.com/posts/1", "facebook.com/x/videos/", "facebook.com/x/photos/", "facebook.com/x/photos/a.1/",
@@ -633,12 +596,34 @@ CORPUS_URLS = [
     "https://notfacebook.com/nasa", "https://facebook.com.evil.org/nasa", "https://evil.org/facebook.com/nasa",
     "https://evil.org/?u=facebook.com", "https://www.facebook.co.uk/nasa", "https://fb.me/nasa", "http://xfb.me/nasa",
     "HTTP://FACEBOOK.COM/nasa", "https://user:pw@www.facebook.com:443/nasa/posts/1", "facebook.com", "facebook.com/", "",
+    # fec1df7 (formerly KF-C19-FB-1): an empty path segment is neither an id nor a handle, nor does it hide a route
+    "https://www.facebook.com/nasa/videos//5", "facebook.com/nasa/videos//5", "facebook.com/x//groups/", "facebook.com/people/a//5",
+    "facebook.com//people", "https://www.facebook.com//people", "facebook.com//nasa", "facebook.com/groups//12345678",
+    "facebook.com/nasa//posts///5", "//nasa//posts//5", "/nasa/videos//5",
+    # 3eab049 (formerly KF-C19-FB-2): an empty set id is no group / album
+    "https://www.facebook.com/photo.php?fbid=1&set=g.", "https://www.facebook.com/photo.php?fbid=1&set=a.",
+    "https://www.facebook.com/photo.php?fbid=1&set=g.&set=a.", "https://www.facebook.com/photo?fbid=1&set=g.&set=a.5",
+    # ad3e67d (formerly KF-C19-FB-3): only the a. prefix is removed from the album segment; an empty album is no photo
+    "https://www.facebook.com/nasa/photos/aa../5", "https://www.facebook.com/nasa/photos/a.a./5", "https://www.facebook.com/nasa/photos/a./5",
+    "https://www.facebook.com/nasa/photos/media.123/5", "https://www.facebook.com/1234567890/photos/a.a.1/5",
+    "https://www.facebook.com/nasa/photos/xa./5",
+    # 7e5e990 (formerly KF-C19-FB-4): the host test of convert_facebook_url_to_mobile ignores case
+    "HTTP://WWW.FACEBOOK.COM/nasa", "FaceBook.com/nasa", "https://M.FACEBOOK.com/nasa?x=1",
+    # KF-C19-FB-5 (known): a segment that ends with a blank, at the end of the canonical url
+    "https://www.facebook.com/a /b", "https://www.facebook.com/ /a", "https://www.facebook.com/x/posts/5 /y",
+    "https://www.facebook.com/groups/nasa /x", "https://www.facebook.com/nasa/videos/5 /", "https://www.facebook.com/people/a/5 /b",
+    # ... and blanks that survive: in front, inside, at the end of a field that does not end the url
+    "https://www.facebook.com/ nasa", "https://www.facebook.com/na sa", "https://www.facebook.com/nasa /posts/5",
+    "https://www.facebook.com/nasa /photos/a.1 /5", "https://www.facebook.com/watch?v=a%20", "https://www.facebook.com/ people/a/5",
 ]
 
 ROUTES = ["watch", "videos", "photo.php", "photo", "photos", "posts", "permalink.php", "story.php", "groups", "permalink",
           "profile.php", "people", "l.php"]
 SEGS_QUICK = ROUTES + ["1234567890", "12", "nasa", "a.123", "", "x.php", "a..b", "9" * 40]
-SEGS_EXTRA = ["watchme", "peoplex", "Groups", "a.", "aa..", ".", "..", "a;", "a b", "n%20sa", "1234_5678", "é", "x" * 70]
+SEGS_EXTRA = ["watchme", "peoplex", "Groups", "a.", "aa..", ".", "..", "a;", "a b", "n%20sa", "1234_5678", "é", "x" * 70, "nasa ", " nasa", " ",
+              "5 "]
+# blanks around id-like / handle-like segments (KF-C19-FB-5 and its surviving neighbours): every path of 1-3 segments
+SEGS_BLANK = ["nasa", "1234567890", "nasa ", " nasa", " ", "5 ", "groups", "posts", "videos", "photos", "a.1", "permalink", "people"]
 QKEYS = ["v", "fbid", "set", "id", "story_fbid", "u"]
 QVALS = ["1234567890", "nasa", "a.55", "g.77", "", "g.", "a.", "a%26b", "a+b", "é"]
 HOSTS = ["facebook.com", "www.facebook.com", "m.facebook.com", "fr-fr.facebook.com", "web.facebook.com", "fb.me", "facebook.co",
@@ -701,6 +686,12 @@ def url_cases(rng, tier):
                             c = emit(rp, True)
                             if c:
                                 yield c
+    for n in range(1, 4):
+        for combo in itertools.product(SEGS_BLANK, repeat=n):
+            if any(" " in x for x in combo):
+                c = emit("https://www.facebook.com" + _path(combo, False), False)
+                if c:
+                    yield c
     if not quick:
         for _ in range(120000):
             combo = [rng.choice(segs) for _ in range(5)]
@@ -713,7 +704,7 @@ def url_cases(rng, tier):
     allq2 = _queries(2)
     for n in (0, 1):
         for combo in itertools.product(ROUTES + ["nasa", ""], repeat=n):
-            qs = allq1 + (rng.sample(allq2, 150) if quick else rng.sample(allq2, 1500))
+            qs = allq1 + (rng.sample(allq2, 60) if quick else rng.sample(allq2, 1600))
             for q in qs:
                 c = emit("https://www.facebook.com" + _path(combo, False) + ("?" + q if q else ""), False)
                 if c:
@@ -736,7 +727,8 @@ def url_cases(rng, tier):
                 if c:
                     yield c
     # 5. seeded random: longer paths over the wider vocabulary, 0..3 query items, odd hosts
-    n = 15000 if quick else 200000
+    # quick: a light sample (the corpus and the enumerated scope above carry the tier); the volume is in the thorough tier
+    n = 6000 if quick else 210000
     wide = SEGS_QUICK + SEGS_EXTRA
     items = ["%s=%s" % (k, v) for k in QKEYS for v in QVALS] + QKEYS
     for _ in range(n):
@@ -781,7 +773,7 @@ def str_cases(rng, tier):
     for n in range(1, 4 if tier == "quick" else 5):
         for t in itertools.product(small, repeat=n):
             yield {"k": "str", "s": "".join(t), "sep": "a."}
-    n = 3000 if tier == "quick" else 40000
+    n = 1500 if tier == "quick" else 42000
     for _ in range(n):
         s = "".join(rng.choice(ALPHABET) for _ in range(rng.randint(0, 14)))
         if rng.random() < 0.3:
@@ -840,10 +832,11 @@ def classify(case):
         r = fb.parse_facebook_url(u, allow_relative_urls=case["rel"])
         labs.append("result=" + (type(r).__name__ if r is not None else "None"))
         if r is not None:
-            if fields_ok(r) and not finding_shape(r):
-                labs.append("reparse=proved")  # hypotheses of reparse_of_parse_partial
+            if chars_ok(r):
+                labs.append("reparse=proved")  # hypothesis of reparse_of_parse_partial
             elif in_scope(r):
-                labs.append("reparse=demanded-not-proved")  # in the oracle's scope, outside the theorem's: the known findings
+                # in the oracle's scope, outside the theorem's: a field with a blank (explored; KF-C19-FB-5 where it fails)
+                labs.append("reparse=demanded-explored")
             else:
                 labs.append("reparse=not-demanded")
     except Exception as e:  # noqa
